@@ -9,6 +9,7 @@ package main
 import (
 	"fmt"
 	"os"
+	"runtime/debug"
 	"sort"
 	"strconv"
 	"strings"
@@ -16,6 +17,7 @@ import (
 
 	"verif/internal/child"
 	"verif/internal/ev"
+	"verif/internal/sutc"
 )
 
 // Check is one registered property check.
@@ -169,8 +171,25 @@ func runCheck(id, tier string) int {
 		return runAPIChild(c, tier)
 	}
 	r := ev.New(id, tier, seed(), c.Level)
-	c.Drive(r)
+	func() {
+		defer func() {
+			if p := recover(); p != nil {
+				r.Internal("driver panicked: %v\n%s", p, debug.Stack())
+			}
+		}()
+		c.Drive(r)
+	}()
 	return r.Finish()
+}
+
+// sutDied reports the death of the proxy process as a violation of the running check's property.
+func sutDied(r *ev.Run, s *sutc.SUT, context interface{}) bool {
+	if s.Alive() {
+		return false
+	}
+	crash := s.CrashLine()
+	r.Violation(r.ID+":sut-died:"+crashClass(crash), "the proxy process died: "+crash, map[string]interface{}{"context": context, "exit": s.ExitInfo(), "log_tail": s.LogTail(5000)})
+	return true
 }
 
 // runAPIChild runs the API check in a child and turns a crash into a verdict.
